@@ -1,6 +1,147 @@
 // src/types.rs: DiffOp, DiffTag, ChangeTag, Change<T>
 verus! {
 
+// ---------------------------------------------------------------------------------------------
+// spec vocabulary for DiffOp (shared with the compaction unit)
+// ---------------------------------------------------------------------------------------------
+pub open spec fn op_tag(op: DiffOp) -> DiffTag {
+    match op {
+        DiffOp::Equal { .. } => DiffTag::Equal,
+        DiffOp::Delete { .. } => DiffTag::Delete,
+        DiffOp::Insert { .. } => DiffTag::Insert,
+        DiffOp::Replace { .. } => DiffTag::Replace,
+    }
+}
+
+pub open spec fn op_old_index(op: DiffOp) -> usize {
+    match op {
+        DiffOp::Equal { old_index, .. } => old_index,
+        DiffOp::Delete { old_index, .. } => old_index,
+        DiffOp::Insert { old_index, .. } => old_index,
+        DiffOp::Replace { old_index, .. } => old_index,
+    }
+}
+
+pub open spec fn op_new_index(op: DiffOp) -> usize {
+    match op {
+        DiffOp::Equal { new_index, .. } => new_index,
+        DiffOp::Delete { new_index, .. } => new_index,
+        DiffOp::Insert { new_index, .. } => new_index,
+        DiffOp::Replace { new_index, .. } => new_index,
+    }
+}
+
+/// number of old items the op consumes
+pub open spec fn op_old_len(op: DiffOp) -> usize {
+    match op {
+        DiffOp::Equal { len, .. } => len,
+        DiffOp::Delete { old_len, .. } => old_len,
+        DiffOp::Insert { .. } => 0,
+        DiffOp::Replace { old_len, .. } => old_len,
+    }
+}
+
+/// number of new items the op consumes
+pub open spec fn op_new_len(op: DiffOp) -> usize {
+    match op {
+        DiffOp::Equal { len, .. } => len,
+        DiffOp::Delete { .. } => 0,
+        DiffOp::Insert { new_len, .. } => new_len,
+        DiffOp::Replace { new_len, .. } => new_len,
+    }
+}
+
+/// index + length does not overflow on either side
+pub open spec fn op_wf(op: DiffOp) -> bool {
+    op_old_index(op) + op_old_len(op) <= usize::MAX && op_new_index(op) + op_new_len(op) <= usize::MAX
+}
+
+pub open spec fn op_old_end(op: DiffOp) -> int { op_old_index(op) + op_old_len(op) }
+pub open spec fn op_new_end(op: DiffOp) -> int { op_new_index(op) + op_new_len(op) }
+
+/// the ranges of `as_tag_tuple` (meaningful under `op_wf`)
+pub open spec fn op_old_range(op: DiffOp) -> Range<usize> {
+    Range { start: op_old_index(op), end: (op_old_index(op) + op_old_len(op)) as usize }
+}
+
+pub open spec fn op_new_range(op: DiffOp) -> Range<usize> {
+    Range { start: op_new_index(op), end: (op_new_index(op) + op_new_len(op)) as usize }
+}
+
+/// the hook event an op stands for, and back
+pub open spec fn ev_of(op: DiffOp) -> Ev {
+    match op {
+        DiffOp::Equal { old_index, new_index, len } => Ev::Equal(old_index, new_index, len),
+        DiffOp::Delete { old_index, old_len, new_index } => Ev::Delete(old_index, old_len, new_index),
+        DiffOp::Insert { old_index, new_index, new_len } => Ev::Insert(old_index, new_index, new_len),
+        DiffOp::Replace { old_index, old_len, new_index, new_len } => Ev::Replace(old_index, old_len, new_index, new_len),
+    }
+}
+
+pub open spec fn op_of(ev: Ev) -> DiffOp {
+    match ev {
+        Ev::Equal(old_index, new_index, len) => DiffOp::Equal { old_index, new_index, len },
+        Ev::Delete(old_index, old_len, new_index) => DiffOp::Delete { old_index, old_len, new_index },
+        Ev::Insert(old_index, new_index, new_len) => DiffOp::Insert { old_index, new_index, new_len },
+        Ev::Replace(old_index, old_len, new_index, new_len) => DiffOp::Replace { old_index, old_len, new_index, new_len },
+        Ev::Finish => arbitrary(),   // no op stands for Finish
+    }
+}
+
+pub proof fn lemma_op_of_ev_of(op: DiffOp)
+    ensures op_of(ev_of(op)) == op, !(ev_of(op) is Finish),
+{}
+
+pub proof fn lemma_ev_of_op_of(ev: Ev)
+    requires !(ev is Finish),
+    ensures ev_of(op_of(ev)) == ev,
+{}
+
+/// what a hook's trace looks like after `op.apply_to_hook(d)` succeeded on a hook with trace `t0`
+pub open spec fn applied_trace<D: DiffHook>(t0: Seq<Ev>, op: DiffOp) -> Seq<Ev> {
+    match op {
+        DiffOp::Replace { old_index, old_len, new_index, new_len } =>
+            if D::replace_is_atomic() { t0.push(Ev::Replace(old_index, old_len, new_index, new_len)) }
+            else { t0.push(Ev::Delete(old_index, old_len, new_index)).push(Ev::Insert(old_index, new_index, new_len)) },
+        _ => t0.push(ev_of(op)),
+    }
+}
+
+/// `modify` of `adjust`: subtract (neg) or add
+pub open spec fn modify_ok(v: usize, a: usize, neg: bool) -> bool {
+    if neg { a <= v } else { v + a <= usize::MAX }
+}
+
+pub open spec fn modified(v: usize, a: usize, neg: bool) -> usize {
+    if neg { (v - a) as usize } else { (v + a) as usize }
+}
+
+/// `adjust((off, off_neg), (len, len_neg))`: both indices move by the offset, every length the op has by `len`
+pub open spec fn adjusted(op: DiffOp, off: usize, off_neg: bool, len: usize, len_neg: bool) -> DiffOp {
+    match op {
+        DiffOp::Equal { old_index, new_index, len: l } => DiffOp::Equal {
+            old_index: modified(old_index, off, off_neg), new_index: modified(new_index, off, off_neg), len: modified(l, len, len_neg) },
+        DiffOp::Delete { old_index, old_len, new_index } => DiffOp::Delete {
+            old_index: modified(old_index, off, off_neg), old_len: modified(old_len, len, len_neg), new_index: modified(new_index, off, off_neg) },
+        DiffOp::Insert { old_index, new_index, new_len } => DiffOp::Insert {
+            old_index: modified(old_index, off, off_neg), new_index: modified(new_index, off, off_neg), new_len: modified(new_len, len, len_neg) },
+        DiffOp::Replace { old_index, old_len, new_index, new_len } => DiffOp::Replace {
+            old_index: modified(old_index, off, off_neg), old_len: modified(old_len, len, len_neg),
+            new_index: modified(new_index, off, off_neg), new_len: modified(new_len, len, len_neg) },
+    }
+}
+
+/// no `modify` of that `adjust` call under- or overflows
+pub open spec fn adjust_ok(op: DiffOp, off: usize, off_neg: bool, len: usize, len_neg: bool) -> bool {
+    modify_ok(op_old_index(op), off, off_neg) && modify_ok(op_new_index(op), off, off_neg)
+    && match op {
+        DiffOp::Equal { len: l, .. } => modify_ok(l, len, len_neg),
+        DiffOp::Delete { old_len, .. } => modify_ok(old_len, len, len_neg),
+        DiffOp::Insert { new_len, .. } => modify_ok(new_len, len, len_neg),
+        DiffOp::Replace { old_len, new_len, .. } => modify_ok(old_len, len, len_neg) && modify_ok(new_len, len, len_neg),
+    }
+}
+
 //@@ item src/types.rs :: ^pub enum ChangeTag rw=R7
 #[derive(PartialEq, Eq, Clone, Copy)]
 pub enum ChangeTag {
@@ -23,22 +164,33 @@ pub struct Change<T> {
 }
 //@@ end
 
+// spec accessors for the pub(crate) fields of Change (pub fns may only mention pub spec fns)
+impl<T> Change<T> {
+    pub closed spec fn sp_tag(&self) -> ChangeTag { self.tag }
+    pub closed spec fn sp_old_index(&self) -> Option<usize> { self.old_index }
+    pub closed spec fn sp_new_index(&self) -> Option<usize> { self.new_index }
+    pub closed spec fn sp_value(&self) -> T { self.value }
+}
+
 //@@ item src/types.rs :: ^impl<T: Clone> Change<T> rw=R0
 impl<T: Clone> Change<T> {
     /// Returns the change tag.
     pub fn tag(&self) -> (res: ChangeTag)
+    /*@*/     ensures res == self.sp_tag(),
     {
         self.tag
     }
 
     /// Returns the old index if available.
     pub fn old_index(&self) -> (res: Option<usize>)
+    /*@*/     ensures res == self.sp_old_index(),
     {
         self.old_index
     }
 
     /// Returns the new index if available.
     pub fn new_index(&self) -> (res: Option<usize>)
+    /*@*/     ensures res == self.sp_new_index(),
     {
         self.new_index
     }
@@ -50,18 +202,21 @@ impl<T: Clone> Change<T> {
     /// string it's best to use the [`Change::as_str`] and
     /// [`Change::to_string_lossy`] methods.
     pub fn value(&self) -> (res: T)
+    /*@*/     ensures call_ensures(T::clone, (&self.sp_value(),), res),
     {
         self.value.clone()
     }
 
     /// Returns the underlying changed value as reference.
     pub fn value_ref(&self) -> (res: &T)
+    /*@*/     ensures *res == self.sp_value(),
     {
         &self.value
     }
 
     /// Returns the underlying changed value as mutable reference.
     pub fn value_mut(&mut self) -> (res: &mut T)
+    /*@*/     ensures *res == (*old(self)).sp_value(),
     {
         &mut self.value
     }
@@ -126,22 +281,28 @@ pub enum DiffTag {
 }
 //@@ end
 
-//@@ item src/types.rs :: ^impl DiffOp rw=R0 drop=fn\s+iter_slices|fn\s+iter_changes
+//@@ item src/types.rs :: ^impl DiffOp rw=R0,R0n drop=fn\s+iter_slices|fn\s+iter_changes
 impl DiffOp {
     /// Returns the tag of the operation.
     pub fn tag(self) -> (res: DiffTag)
+    /*@*/     requires op_wf(self),
+    /*@*/     ensures res == op_tag(self),
     {
         self.as_tag_tuple().0
     }
 
     /// Returns the old range.
     pub fn old_range(&self) -> (res: Range<usize>)
+    /*@*/     requires op_wf(*self),
+    /*@*/     ensures res == op_old_range(*self), res.start == op_old_index(*self), res.end == op_old_end(*self),
     {
         self.as_tag_tuple().1
     }
 
     /// Returns the new range.
     pub fn new_range(&self) -> (res: Range<usize>)
+    /*@*/     requires op_wf(*self),
+    /*@*/     ensures res == op_new_range(*self), res.start == op_new_index(*self), res.end == op_new_end(*self),
     {
         self.as_tag_tuple().2
     }
@@ -156,6 +317,10 @@ impl DiffOp {
     /// * `Insert`: `b[j1..j2]` should be inserted at `a[i1..i2]` (`i1 == i2` in this case).
     /// * `Equal`: `a[i1..i2]` is equal to `b[j1..j2]`.
     pub fn as_tag_tuple(&self) -> (res: (DiffTag, Range<usize>, Range<usize>))
+    /*@*/     requires op_wf(*self),
+    /*@*/     ensures res.0 == op_tag(*self), res.1 == op_old_range(*self), res.2 == op_new_range(*self),
+    /*@*/         res.1.start == op_old_index(*self), res.1.end == op_old_end(*self),
+    /*@*/         res.2.start == op_new_index(*self), res.2.end == op_new_end(*self),
     {
         match *self {
             DiffOp::Equal {
@@ -200,6 +365,10 @@ impl DiffOp {
 
     /// Apply this operation to a diff hook.
     pub fn apply_to_hook<D: DiffHook>(&self, d: &mut D) -> (res: Result<(), D::Error>)
+    /*@*/     requires hook_pre(*old(d), ev_of(*self)), *self is Replace ==> (*old(d)).accepts_replace(),
+    /*@*/     ensures hook_frame(*old(d), *final(d), res),
+    /*@*/         res.is_ok() ==> (*final(d)).trace() == applied_trace::<D>((*old(d)).trace(), *self),
+    /*@*/         res.is_ok() ==> (*final(d)).rely_st() == step_rel((*old(d)).rely_rel(), (*old(d)).rely_st(), ev_of(*self)),
     {
         match *self {
             DiffOp::Equal {
@@ -229,45 +398,64 @@ impl DiffOp {
 
 
     pub(crate) fn is_empty(&self) -> (res: bool)
+    /*@*/     requires op_wf(*self),
+    /*@*/     ensures res == (op_old_len(*self) == 0 && op_new_len(*self) == 0),
     {
         let (_, old, new) = self.as_tag_tuple();
         is_empty_range(&old) && is_empty_range(&new)
     }
 
     pub(crate) fn shift_left(&mut self, adjust: usize)
+    /*@*/     requires adjust_ok(*old(self), adjust, true, 0, false),
+    /*@*/     ensures *final(self) == adjusted(*old(self), adjust, true, 0, false),
     {
         self.adjust((adjust, true), (0, false));
     }
 
     pub(crate) fn shift_right(&mut self, adjust: usize)
+    /*@*/     requires adjust_ok(*old(self), adjust, false, 0, false),
+    /*@*/     ensures *final(self) == adjusted(*old(self), adjust, false, 0, false),
     {
         self.adjust((adjust, false), (0, false));
     }
 
     pub(crate) fn grow_left(&mut self, adjust: usize)
+    /*@*/     requires adjust_ok(*old(self), adjust, true, adjust, false),
+    /*@*/     ensures *final(self) == adjusted(*old(self), adjust, true, adjust, false),
     {
         self.adjust((adjust, true), (adjust, false));
     }
 
     pub(crate) fn grow_right(&mut self, adjust: usize)
+    /*@*/     requires adjust_ok(*old(self), 0, false, adjust, false),
+    /*@*/     ensures *final(self) == adjusted(*old(self), 0, false, adjust, false),
     {
         self.adjust((0, false), (adjust, false));
     }
 
     pub(crate) fn shrink_left(&mut self, adjust: usize)
+    /*@*/     requires adjust_ok(*old(self), 0, false, adjust, true),
+    /*@*/     ensures *final(self) == adjusted(*old(self), 0, false, adjust, true),
     {
         self.adjust((0, false), (adjust, true));
     }
 
     pub(crate) fn shrink_right(&mut self, adjust: usize)
+    /*@*/     requires adjust_ok(*old(self), adjust, false, adjust, true),
+    /*@*/     ensures *final(self) == adjusted(*old(self), adjust, false, adjust, true),
     {
         self.adjust((adjust, false), (adjust, true));
     }
 
     fn adjust(&mut self, adjust_offset: (usize, bool), adjust_len: (usize, bool))
+    /*@*/     requires adjust_ok(*old(self), adjust_offset.0, adjust_offset.1, adjust_len.0, adjust_len.1),
+    /*@*/     ensures *final(self) == adjusted(*old(self), adjust_offset.0, adjust_offset.1, adjust_len.0, adjust_len.1),
     {
         #[inline(always)]
-        fn modify(val: &mut usize, adj: (usize, bool)) {
+        fn modify(val: &mut usize, adj: (usize, bool))
+        /*@*/     requires modify_ok(*old(val), adj.0, adj.1),
+        /*@*/     ensures *final(val) == modified(*old(val), adj.0, adj.1),
+        {
             if adj.1 {
                 *val -= adj.0;
             } else {
